@@ -5,7 +5,7 @@
    composition loses persistent groups (known finding), which depends on reference-count driven registry edits that
    the model does not express. *)
 Require Import List Bool ZArith.
-From FV Require Import Lib.Sym Model.C01 Model.C01Compile Model.C03 Model.C03Graph Model.C04 Proofs.C04 Proofs.C04Graph Proofs.C04GraphTrain Proofs.C04GraphTrainPers Proofs.C04GraphCommit.
+From FV Require Import Lib.Sym Model.C01 Model.C01Compile Model.C03 Model.C03Graph Model.C04 Proofs.C04 Proofs.C04Graph Proofs.C04GraphTrain Proofs.C04GraphTrainPers Proofs.C04GraphCommit Model.C04Seg Proofs.C04SegCheck.
 Import ListNotations.
 
 (* positional binding is correct: a freshly expanded pipeline whose i-th stateful apply-path actor receives the i-th
@@ -86,6 +86,12 @@ Theorem C04_retrain_commits : forall e a t sl prev visit,
                eval fuel (Some L) (gnodes gs) tb c = Some (TTup (persisted (train_run prev (flatten e) (source a t sl))))).
 Proof. intros e a t sl prev visit gs gids L H. exact (retrain_commits e a t sl prev H visit). Qed.
 Print Assumptions C04_retrain_commits.
+
+(* the graph-level correspondence check (C04Seg.check_case_graph: every training and every later action replayed on the
+   executable graph models, with the observed generations in the accessor) asks nothing the lifecycle-level one does not *)
+Theorem C04_graph_check_implied : forall c, C04.check_case c = true -> check_case_graph c = true.
+Proof. exact seg_check_implied. Qed.
+Print Assumptions C04_graph_check_implied.
 
 Example C04_witness :
   let a := OpSpec (Some (Actor 5 0 true)) TSame None in
